@@ -47,6 +47,7 @@ type FuncContract struct {
 	Where    string
 	Requires []*Clause
 	Ensures  []*Clause
+	Exits    []*Clause // exit assertions: checked at every return where their locals are live; not part of the callers' view
 	Modifies []*Clause
 	Uses     []*Clause
 	UseRets  []*Clause
@@ -121,7 +122,7 @@ func newContracts() *Contracts {
 }
 
 var clauseKeywords = map[string]bool{
-	"spec": true, "pred": true, "axiom": true, "ghost": true, "func": true, "requires": true, "ensures": true,
+	"spec": true, "pred": true, "axiom": true, "ghost": true, "func": true, "requires": true, "ensures": true, "exit": true,
 	"modifies": true, "use": true, "decreases": true, "inline": true, "trusted": true, "loop": true, "end": true,
 	"invariant": true, "package": true, "fnparam": true, "nullable": true, "pure": true, "nobody": true, "gaxiom": true, "useret": true, "implements": true, "define": true, "transition": true, "include": true, "loopinv": true, "params": true,
 }
@@ -422,7 +423,7 @@ func (cs *Contracts) loadFile(path string, goFile bool) error {
 				return err
 			}
 			curLoop.Transitions = append(curLoop.Transitions, c)
-		case "requires", "ensures", "modifies", "use", "decreases", "invariant":
+		case "requires", "ensures", "exit", "modifies", "use", "decreases", "invariant":
 			if cur == nil {
 				return fail(fmt.Errorf("%s outside func", kw))
 			}
@@ -435,6 +436,8 @@ func (cs *Contracts) loadFile(path string, goFile bool) error {
 				cur.Requires = append(cur.Requires, c)
 			case "ensures":
 				cur.Ensures = append(cur.Ensures, c)
+			case "exit":
+				cur.Exits = append(cur.Exits, c)
 			case "modifies":
 				if curLoop != nil {
 					curLoop.Modifies = append(curLoop.Modifies, c)
@@ -523,6 +526,7 @@ func (fc *FuncContract) propsOf() map[string]bool {
 	}
 	add(fc.Requires)
 	add(fc.Ensures)
+	add(fc.Exits)
 	add(fc.LoopInvs)
 	for _, l := range fc.Loops {
 		add(l.Invariants)
